@@ -32,6 +32,7 @@ import (
 	"sync/atomic"
 	"time"
 
+	"git.metabarcoding.org/obitools/obitools4/obitools4/pkg/obiiter"
 	"git.metabarcoding.org/obitools/obitools4/obitools4/pkg/obikmer"
 	"git.metabarcoding.org/obitools/obitools4/obitools4/pkg/obiseq"
 	"git.metabarcoding.org/obitools/obitools4/obitools4/pkg/obitax"
@@ -250,6 +251,98 @@ func c15Assign(q []byte, db *c15DB) (taxid int, problem string) {
 	case <-time.After(20 * time.Second):
 		atomic.AddInt32(&c15Hangs, 1)
 		return 0, "hang: Identify did not return within 20 s"
+	}
+}
+
+// c15AssignCLI assigns q the way the obitag command does: obitag.CLIAssignTaxonomy prepares the reference
+// database itself (4-mer tables, taxa, references of unknown taxid discarded with a warning).  ghosts are
+// positions (0..len(refs)) at which a reference whose taxid is not in the taxonomy is slipped in: such
+// references are discarded by the command, the answer is that of the database without them.
+func c15AssignCLI(q []byte, refs [][]byte, taxa []int, parent []int, perm []int, ghosts []int, seed int64) (taxid int, problem string) {
+	taxid, problem = c15AssignCLIOnce(q, refs, taxa, parent, perm, ghosts, seed, 20*time.Second)
+	if strings.HasPrefix(problem, "hang:") {
+		// thousands of cases run at once, each with its own pool of workers: a case that was slow is run again,
+		// alone, with a long patience, before it is called a hang
+		c15Alone.Lock()
+		defer c15Alone.Unlock()
+		taxid, problem = c15AssignCLIOnce(q, refs, taxa, parent, perm, ghosts, seed, 180*time.Second)
+	}
+	return
+}
+
+var c15Alone sync.Mutex
+
+func c15AssignCLIOnce(q []byte, refs [][]byte, taxa []int, parent []int, perm []int, ghosts []int, seed int64, patience time.Duration) (taxid int, problem string) {
+	taxo, err := c15Taxonomy(parent)
+	if err != nil {
+		return 0, "taxonomy: " + err.Error()
+	}
+	rng := rand.New(rand.NewSource(seed))
+	ghost := func(k int) *obiseq.BioSequence {
+		n := len(q) + rng.Intn(5)
+		b := make([]byte, n)
+		for i := range b {
+			b[i] = "acgt"[rng.Intn(4)]
+		}
+		s := obiseq.NewBioSequence("ghost"+strconv.Itoa(k), b, "")
+		s.SetTaxid(len(parent) + 100 + k)
+		return s
+	}
+	var references obiseq.BioSequenceSlice
+	isGhost := func(pos int) bool {
+		for _, g := range ghosts {
+			if g == pos {
+				return true
+			}
+		}
+		return false
+	}
+	for i, p := range perm {
+		if isGhost(i) {
+			references = append(references, ghost(i))
+		}
+		s := obiseq.NewBioSequence("r"+strconv.Itoa(p+1), append([]byte(nil), refs[p]...), "")
+		s.SetTaxid(taxa[p])
+		references = append(references, s)
+	}
+	if isGhost(len(perm)) {
+		references = append(references, ghost(len(perm)))
+	}
+	type answer struct {
+		taxid   int
+		problem string
+	}
+	done := make(chan answer, 1)
+	go func() {
+		var a answer
+		sent := false
+		defer func() {
+			if !sent {
+				done <- answer{0, "fatal: " + strings.Join(fatalMessages(), "; ")}
+			}
+		}()
+		defer func() { sent = true; done <- a }()
+		a.problem = c15Guard(func() {
+			query := obiseq.NewBioSequence("query", append([]byte(nil), q...), "")
+			// one worker, in this goroutine: a panic of the command's worker is observed here
+			out := obitag.CLIAssignTaxonomy(obiiter.IBatchOver("verif", obiseq.BioSequenceSlice{query}, 10), references, taxo)
+			n := 0
+			for out.Next() {
+				for _, s := range out.Get().Slice() {
+					a.taxid = s.Taxid()
+					n++
+				}
+			}
+			if n != 1 {
+				panic(fmt.Sprintf("%d sequences came out for one query", n))
+			}
+		})
+	}()
+	select {
+	case a := <-done:
+		return a.taxid, a.problem
+	case <-time.After(patience):
+		return 0, fmt.Sprintf("hang: CLIAssignTaxonomy did not deliver within %v", patience)
 	}
 }
 
@@ -491,6 +584,20 @@ func c15Replay(env *Env) {
 				env.ok("assign." + ord)
 				if c.Assigned != 1 {
 					c15Tally(env, "assign.below_root")
+				}
+			}
+			// the same through the command's own preparation of the database, with references of unknown taxid
+			// slipped in (first, somewhere, last; none): they are discarded, the answer does not change
+			for gi, ghosts := range [][]int{{}, {0}, {n}, {(ci + 1) % (n + 1), (ci*7 + 3) % (n + 1)}} {
+				gname := []string{"none", "first", "last", "two"}[gi]
+				taxid, problem := c15AssignCLI(q, refs, c.Taxa, c.Parent, perm, ghosts, env.seed*1000+int64(ci))
+				switch {
+				case problem != "":
+					fail("C15.cli.crash", fmt.Sprintf("CLIAssignTaxonomy (%s, unknown-taxid references at %v): %s", ord, ghosts, problem))
+				case taxid != c.Assigned:
+					fail("C15.cli.taxon", fmt.Sprintf("CLIAssignTaxonomy (%s, unknown-taxid references at %v) assigns taxon %d; Identify on the database without them is expected to give %d (best references %v at distance %d)", ord, ghosts, taxid, c.Assigned, want, c.D))
+				default:
+					env.ok("cli." + gname)
 				}
 			}
 		}
